@@ -243,6 +243,9 @@ def r3(ctx, F, sfx):
                 if e == r2v:
                     alt = axes
                     break
+            if alt is None and any(a.kind == 'app' and a.name.startswith('call:') and 'intersect_planes' not in a.name for a in I.atoms_deep(r2v).values()):
+                ctx.incomplete('C16.R3', 'radius2-%s%s' % (dim, sfx), 'radius^2 uses a library call outside the semantics table: %s' % repr(r2v)[:200], w)
+                continue
             if alt is None:
                 ctx.bad('C16.R3', 'radius2-%s%s' % (dim, sfx), repr(r2v)[:200], 'squared distance generator-vertex in a subspace containing the active axes', w, key_extra='formula')
                 continue
